@@ -40,8 +40,18 @@ Decided:
          body, and no store to its body reaches that return.
   R14.k  like with like (c14_faith.py): the time compared with If-Modified-Since and the time sent as Last-Modified are
          the same function of the file (same callee, same arguments after binding defaults and folding constants).
+  R14.l  the Content-Type is guessed (c14_faith.py): every source of the header is the mimetype argument, guess_type(<served
+         path>)[0], or one of the two configured defaults; default_binary_mime is chosen only under is_binary_string(<what
+         peek_file read from the opened file>), default_text_mime never under it.
+  R14.m  configuration reaches build_file_response unchanged (c14_faith.py): both endpoints pass cache_timeout=self.cache_timeout
+         and cached_modify_time=request.if_modified_since, the application its two default types (not swapped), the route its
+         mimetype; the constructors store exactly their arguments; cache_timeout defaults to a positive number (client
+         caching is on by default -- otherwise the 304 branch is dead); the application's default types are those of
+         build_file_response.
+  R14.n  the body is the whole file (c14_faith.py): peek_file seeks back to the position tell() gave before the read on
+         every normal path to its exit; build_file_response itself never reads from / moves the handle before it is wrapped.
   R14.b  also covers every HTTP error raised by a function of the module the endpoints call (public helpers).
-Declined: byte equality of bodies, MIME guessing, date formatting; that the handle is closed on every error path between
+Declined: byte equality of bodies, what mimetypes.guess_type / is_binary_string answer (values), date formatting; that the handle is closed on every error path between
 open() and the response (a resource clause, not part of the statement: the tree itself leaks it when the stat fails).
 
 Constructs are located by role, not by spelling.  The loader dissolves private helpers into their callers; on top of
@@ -489,8 +499,11 @@ def run(rep):
                'served path is looked up by this request, nothing a request learns outlives it, no result cache around a serving '
                'function; R14.h test / open / size / type guess name the one served path, binary read-only open; R14.i search '
                'paths visited in order, first regular file wins, order kept by the application; R14.j the 304 answer has no body; '
-               'R14.k Last-Modified and the 304 comparison are computed the same way')
-    rep.decline('byte equality of served bodies, MIME guessing, Last-Modified formatting (values); closing the handle on every error '
+               'R14.k Last-Modified and the 304 comparison are computed the same way; R14.l the Content-Type is the given mimetype, '
+               'the guess for the served path, or the binary / text default chosen by peeking into the opened file; R14.m the '
+               'configuration (cache_timeout on by default, default types, mimetype) and If-Modified-Since reach build_file_response '
+               'unchanged; R14.n peeking restores the position of the handle, which reaches the wrapper unread')
+    rep.decline('byte equality of served bodies, the answers of mimetypes.guess_type / is_binary_string, Last-Modified formatting (values); closing the handle on every error '
                 'path between open() and the response (resource clause, not in the statement)')
     rep.assume('os.path.normpath leaves ".." components only as a prefix of a relative path (POSIX semantics)')
     rep.assume('os.path.isfile never raises')
@@ -508,6 +521,9 @@ def run(rep):
     _group(rep, c14_faith.r14i)
     _group(rep, c14_faith.r14j)
     _group(rep, c14_faith.r14k)
+    _group(rep, c14_faith.r14l)
+    _group(rep, c14_faith.r14m)
+    _group(rep, c14_faith.r14n)
 
 
 def _find_file_call(st):
